@@ -162,6 +162,9 @@ FunctorManager::Env FunctorManager::createEnv(Context& caller, unsigned id, cons
     _ctx->recursion(r + 1);
     _ctx->trace(caller.trace());
     _ctx->returnCondition(false);
+    /* a call never sees what a previous call left: every variable starts
+     * unset again, with the type known when the function was compiled */
+    _ctx->resetRuntime(*entry.functor->ctx);
   }
 
   assert(entry.functor->params.size() == pvals.size());
